@@ -114,6 +114,8 @@ pub fn record_artifacts(
     // Initialize artifacts
     let mut artifacts: BTreeMap<VirtualTargetPath, TargetDescription> =
         BTreeMap::new();
+    // Paths that have been recorded already
+    let mut recorded_paths = HashSet::new();
     // For each path provided, walk the directory and add all files to artifacts
     for path in paths {
         // Normalize path
@@ -131,7 +133,9 @@ pub fn record_artifacts(
                     visited_sym_links.insert(String::from(&path));
                     // follow the link: a relative target is relative to the
                     // link's own directory, and may itself be a link
-                    if std::fs::metadata(&path)?.is_file() {
+                    if std::fs::metadata(&path)?.is_file()
+                        && recorded_paths.insert(String::from(&path))
+                    {
                         let (virtual_target_path, hashes) = record_artifact(
                             &path,
                             hash_algorithms,
@@ -146,8 +150,10 @@ pub fn record_artifacts(
                     }
                 }
             }
-            // If entry is a file, open and hash the file
-            if file_type.is_file() {
+            // If entry is a file, open and hash the file (once, even if it is
+            // reached again through overlapping path arguments)
+            if file_type.is_file() && recorded_paths.insert(String::from(&path))
+            {
                 let (virtual_target_path, hashes) =
                     record_artifact(&path, hash_algorithms, lstrip_paths)?;
                 if artifacts.contains_key(&virtual_target_path) {
